@@ -138,6 +138,10 @@ func (x *Exec) allowedWrite(st *State, kind, base string, lo, hi int, obj Term) 
 	var cs []Term
 	// objects newer than the allocation top at entry were allocated during this activation
 	cs = append(cs, mkCmp(">", obj, x.entry.top))
+	if kind == "M" {
+		// element memory of the nil slice: there are no elements to write
+		cs = append(cs, mkEq(obj, tZero))
+	}
 	for _, r := range x.frameRegions() {
 		if r.kind == kind && r.base == base && (kind == "map" || (r.lo <= lo && hi <= r.hi)) {
 			if r.any {
